@@ -121,9 +121,9 @@ per_count("setnint_byname", counts_quick=(0, 1), counts_thorough=(0, 1, 2), entr
 per_count("getters", entry="h_getters", func="cfg_opt_getnint/float/bool/str/ptr/nsec, cfg_opt_size, cfg_opt_getcomment, cfg_opt_name", harness="harness/store2.c", cbmc=unw(6) + NOOOM,
           label="5 option types, default marker set / clear, any index", props=["C01", "C09", "C02"], cost=20, **CF)
 U("setnstr_byname", entry="h_setnstr_byname", func="cfg_setnstr", harness="harness/store2.c", defs={"quick": ["-DNV=2"]}, cbmc=unw(6) + OOM, replay="replay/store_str.c",
-  label="bounded(one value, strings <= 2 bytes)", props=["C14", "C10", "C02"], cost=10, **CFG)
+  label="bounded(one value, strings <= 2 bytes)", props=["C14", "C10", "C09", "C02"], cost=10, **CFG)
 U("setnfloat_byname", entry="h_setnfloat_byname", func="cfg_setnfloat", harness="harness/store2.c", defs={"quick": ["-DNV=2"]}, cbmc=unw(6) + OOM,
-  label="proof (loop-free for one value)", props=["C14", "C10", "C02"], cost=10, **CFG)
+  label="proof (loop-free for one value)", props=["C14", "C10", "C09", "C02"], cost=10, **CFG)
 
 # ------------------------------------------------------------------ cfg_setopt arms
 per_count("setopt_pcb_fb", counts_quick=(0, 1), counts_thorough=(0, 1, 2), entry="h_setopt_pcb_fb", func="cfg_setopt", harness="harness/setopt_arms.c",
